@@ -3,6 +3,7 @@ CONSTANTS K = 1 SendPuncture = TRUE PunctureFirst = FALSE FollowAll = FALSE MaxI
           APlaces = {"pub", "nat"} CandPlaces = {"pub", "nat", "withA"}
           MaxContactsA = 1 MaxContactsB = 1
           MinContacts = 1 MaxRebinds = 0 Clock0 = 0 Refresh = TRUE Ident16 = TRUE
+          Svcs = {"M"} Phased = FALSE V6N = 0 StyleAware = TRUE SvcWalkable = TRUE
 INVARIANT TypeOK
 INVARIANT Reach
 INVARIANT LanMeet
